@@ -36,7 +36,7 @@ def _no_fallthrough(ctx, fid, rule):
     return g
 
 
-def run(ctx):
+def _run_base(ctx):
     repo, cg = ctx.repo, ctx.cg
     ctx.rule('R08.1', 'exit status of main_merge is the conflict verdict (returned value derives from [d for d in decisions if d.conflict]); '
              'early zero only for agreed deletion', floor=3)
@@ -348,3 +348,27 @@ def _block_of(repo, st):
         if st in h.body:
             return h.body
     return [st]
+
+
+def run(ctx):
+    """R08.6: without --out the designated output is stdout, so nothing but the result may be written there.
+    Log records are the one other thing the command emits on every run: the logging set-up must keep them on stderr."""
+    ctx.rule('R08.6', 'log records never go to stdout (where the merged notebook is written when no --out is given): logging is configured '
+             'with the default stderr stream', floor=1)
+    _run_base(ctx)
+    repo = ctx.repo
+    n = 0
+    for fid, fn in sorted(repo.functions.items()):
+        for c in calls_in(fn, nested=False):
+            d = dotted(c.func) or ''
+            if d.endswith('basicConfig') or d.endswith('StreamHandler') or d.endswith('FileHandler'):
+                n += 1
+                kw = {k.arg: k.value for k in c.keywords}
+                stream = kw.get('stream') if d.endswith('basicConfig') else (c.args[0] if c.args else kw.get('stream'))
+                bad = stream is not None and 'stdout' in ast.unparse(stream)
+                ctx.inst('R08.6', fid, repo.norm(c), not bad,
+                         'records go to stderr (logging default) / a stream that is not stdout' if not bad else
+                         'log records are written to stdout: with --log-level DEBUG/INFO and no --out they precede the merged notebook, '
+                         'which is then not well-formed JSON although the exit status reports success', c)
+    if n == 0:
+        raise AnalysisError('no logging configuration call found in the package (nbdime.log.init_logging moved?)')
